@@ -92,3 +92,13 @@ claim("C30", "model_checking", "TLA+ contract + runner machine (TLC enumerates p
       "sample of 180 2-function packages (thorough: 8000) as generated modules through `wa test`; verdict line (ok / FAIL) and exit status are compared.",
       "Trusted: TLC, the package renderer. Domain restriction: a function declaring a panic does not print before panicking. Open known finding: empty `// Output:`.",
       "DESIGN.md section 4 C30")
+
+claim("C18", "model_checking", "TLA+ CPU recombination on bit-vectors evaluated by TLC + the integer form discharged by Apalache (SMT) for all offsets + one execution of the Go functions per TLC case",
+      "PcRel.tla states, on BV bit-vectors, what auipc+addi (RISC-V) and pcalau12i+addi.d (LoongArch) compute from the 20- and 12-bit instruction fields, and the reference "
+      "split as the unique pair that recombines exactly; TLC checks exactness on every offset in [-4200,4200], every +-2^k+j (k=11..31, |j|<=3) and the extremes, and on 30 "
+      "pcs x 46 page-relative targets, and emits the fields. PcRelApa.tla states the same formula over unbounded integers and Apalache proves Init => Inv for ALL 2^32 "
+      "offsets and all 64-bit pc/target pairs in the pcalau12i range (and refutes a deliberately wrong bound). SplitOffset, CombineOffset, MakePCRel, MakeAbs, "
+      "GetTargetAddress and MakeLa64PCRel are executed on every TLC case and must return the specified fields / addresses.",
+      "Trusted: TLC, Apalache/Z3, BV.tla (self-validated exhaustively at 8 bits). The link from the Apalache lemma to the Go code is by the replay on TLC's windows only. "
+      "Assembler call sites (asm_func_*) are not driven.",
+      "DESIGN.md section 4 C18")
